@@ -249,4 +249,43 @@ def handle (e : Exports) (p : Str) (c : Call) : Reply :=
 def handleMsg (e : Exports) (p : Str) (iface : Option Str) (member : Str) : Reply :=
   handle e p (classify iface member)
 
+/-! ### Several handlers alive in one process
+
+`DBusObjectHandler.__init__` creates `self.exports = {}` per instance and every method above reads and
+writes `self.exports` / `self.conn` only: a process with several handlers (several connections, or a
+connection and a bus) is a family of independent tables, each with its own connection.  Nothing in
+`introspection.generateIntrospectionXML` or the handler is kept at module or class level. -/
+namespace Multi
+
+/-- Handler number -> its `exports` dict. -/
+abbrev Tables := Nat → Exports
+
+/-- No handler has exported anything. -/
+def init : Tables := fun _ => []
+
+/-- Handler `k`'s table becomes `e`; the others are what they were. -/
+def set (T : Tables) (k : Nat) (e : Exports) : Tables := fun j => if j = k then e else T j
+
+/-- Result of one API call on one handler: every handler's table afterwards, the messages handed to
+each handler's connection (`self.conn.sendMessage`), whether the call raised. -/
+structure MStepResult where
+  tables : Tables
+  sentOn : Nat → List Signal
+  raised : Bool
+
+/-- `handler_k.exportObject(o)` / `handler_k.unexportObject(p)`. -/
+def step (T : Tables) (k : Nat) (op : Op) : MStepResult :=
+  let r := Tree.step (T k) op
+  { tables := set T k r.exports
+    sentOn := fun j => if j = k then r.sent else []
+    raised := r.raised }
+
+/-- The tables after an interleaved history of calls `(handler, call)`. -/
+def run (h : List (Nat × Op)) : Tables := h.foldl (fun T kop => (step T kop.1 kop.2).tables) init
+
+/-- The calls that were made on handler `k`, in order. -/
+def proj (k : Nat) (h : List (Nat × Op)) : List Op := (h.filter fun kop => kop.1 == k).map Prod.snd
+
+end Multi
+
 end Txdbus.Obj.Tree
